@@ -145,10 +145,14 @@ def gen_reader_cases(ctx, consts):
                 must.append(t)
         rest = [t for t in combos if t not in must]
         combos = must + rest[:max(0, n_target - len(must))]
-    for (cname, cb, enc, padb, tname, npad) in combos[:max(n_target, 0) if thorough else len(combos)]:
-        ops = list(rng.choice(opsets))
-        skip = max(0, npad - rng.choice([0, 0, 1, 2, 5]))
-        ops = ["G%d" % skip] + ops
+    for k, (cname, cb, enc, padb, tname, npad) in enumerate(combos[:max(n_target, 0) if thorough else len(combos)]):
+        if not thorough and k < len(must) and k % 3 != 2:
+            # boundary cases keep the buffer alignment: deliver everything (compared with the Spec) or peek/get pairs
+            ops = ["G"] if k % 3 == 0 else ["G%d" % max(0, npad - 2)] + opsets[1]
+        else:
+            ops = list(rng.choice(opsets))
+            skip = max(0, npad - rng.choice([0, 0, 1, 2, 5]))
+            ops = ["G%d" % skip] + ops
         ver = rng.choice(["10", "10", "11"])
         low = rng.choice([100, 100, 100, 0, 1, 4, 7, 1000])
         tail = u16("tail</r>\r\n", enc) if enc != "latin1" else b"tail</r>\r\n"
